@@ -1981,6 +1981,16 @@ func (s *SweepingProvider) individualProvide(prefix bitstr.Key, keys []mh.Multih
 			s.failedProvide(prefix, keys, fmt.Errorf("individual provide failed for prefix '%s', %w", prefix, err))
 		}
 		if reprovide && err == nil {
+			if len(coveredPrefix) < len(prefix) {
+				// coveredPrefix is about to replace every region scheduled under
+				// it, but only this key was reprovided. Queue the wider region if it
+				// holds other keys, so that they don't have to wait for its next
+				// slot, which can be more than a full interval after their last
+				// reprovide.
+				if n, cerr := s.keystore.CountKeysUpTo(s.ctx, coveredPrefix, 2); cerr != nil || n > 1 {
+					s.reprovideQueue.Enqueue(coveredPrefix)
+				}
+			}
 			prefix = coveredPrefix
 		}
 		provideErr = err
